@@ -13,6 +13,11 @@ TEXT = {
          "set construction order/duplicate-insensitive, contains/containsAll/containsAny/isEmpty, in/has/getAttr/is, like = declarative matcher for all patterns "
          "and strings); the model is the definition: any disagreement with Evaluator::interpret on the generated stream is a failing input.",
          "proof over a hand-written model; correspondence sampled through 6 routes (text, AST, EST, eval_expression, when, unless); error classes only"),
+ "C10": ("Lean theorems over mirrors of CedarValueJson (de)serialisation, from_value/from_expr with check_for_reserved_keys, into_expr + restricted evaluation and "
+         "ValueParser::val_into_restricted_expr (json_roundtrip, toJson_refuses_iff, typed_agrees_explicit, entity/store round trip); tied to the code by a differential run "
+         "(to / of / oftyped / ctx / ent ops) against CedarValueJson, ValueParser, Context, Entity, Entities and EntityJsonParser, plus the statement itself checked on the "
+         "implementation (deep_eq after round trip, schema-based loading = data + schema actions, implicit-with-schema = explicit-without-schema, reserved keys refused).",
+         "proof over a hand-written model; correspondence sampled; serde's untagged-enum behaviour is re-defined in the model; ipaddr text round trip is a stated hypothesis"),
  "C07": ("Lean theorems over mirrors of the decimal/ip/datetime/duration parsers and operations (written-out recognisers + checked arithmetic); the model is the "
          "definition of 'exact': any disagreement with the real extension functions on generated strings/values is a failing input.",
          "proof over a hand-written model; std::net / chrono / regex are inside the implementation under check and are re-defined in the model"),
